@@ -101,7 +101,7 @@ Qed.
 (* stopping a retry timer *)
 Lemma PJ_stop_kind s t x : nth_error (timers s) t = Some x -> tkind x = false -> PJ s (stop_timer s (Some t)).
 Proof.
-  intros Hx Hk HJ. unfold stop_timer. rewrite Hx. destruct (tst x); try exact HJ. revert HJ. apply J_tstate; [exact Hx|].
+  intros Hx Hk HJ. unfold stop_timer. rewrite Hx. destruct (tst x); try exact HJ. refine (J_tstate s t x TStopped Hx _ HJ).
   right. right. intros k r Hk' Hr. destruct (j_it _ HJ k r t Hk' Hr) as (x' & Hx' & _ & T & _). congruence.
 Qed.
 Lemma PJ_stop_retry s r : PJ s (stop_timer s (rretry (getr s r))).
@@ -114,7 +114,7 @@ Lemma getr_set_insts' s l r : getr (set_insts s l) r = getr s r. Proof. reflexiv
 
 Lemma PJ_start s k r c w f : lookup (kmap s) k = Some r -> PJ s (start_rec s r c w f).
 Proof.
-  intros Hk. unfold start_rec. set (x := getr s r). destruct (negb f && rsucc x); [apply PJ_refl|].
+  intros Hk. unfold start_rec. set (x := getr s r). destruct (negb f && rsucc x || rnil x); [apply PJ_refl|].
   destruct (negb f && is_some (rctx x) && negb (rexited x) && ctx_live s (rctx x)); [apply PJ_refl|]. cbn zeta.
   set (s2 := cancel_inst (stop_timer s (rretry x)) (rcancel x)).
   assert (P2 : PJ s s2) by (eapply PJ_trans; [apply PJ_stop_retry | apply PJ_cancel_inst]).
@@ -194,7 +194,8 @@ Proof.
       repeat split. now left.
     + rewrite getr_setr_other in Hq by exact Hne. eauto.
   - intros q t Hq. destruct (Nat.eq_dec q r) as [->|Hne]; [rewrite getr_setr_same in Hq by exact Rl | rewrite getr_setr_other in Hq by exact Hne]; eauto.
-  - intros t x Hx. rewrite GK. auto.
+    cbn [rretry with_remove] in Hq. change (getr s r) with (getr s1 r) in Hq. eauto.
+  - intros t x Hx. rewrite GK. eauto.
 Qed.
 
 Lemma PJ_bookkeep s i : PJ s (bookkeep s i).
@@ -206,7 +207,7 @@ Proof.
   assert (G : forall S a b, PJ s S -> getr S r = y ->
                 (forall t, a = Some t -> rretry y = Some t \/ exists z, nth_error (timers S) t = Some z /\ tkind z = false) ->
                 PJ s (set_cblog (setr S r (with_exit y o a b)) (cblog (setr S r (with_exit y o a b)) ++ [(rkey y, rdata y, o)]))).
-  { intros S a b HS Hy Ha. eapply PJ_trans; [exact HS|]. eapply PJ_trans; [|jext].
+  { intros S a b HS Hy Ha. apply (PJ_trans _ S); [exact HS|]. apply (PJ_trans _ (setr S r (with_exit y o a b))); [|jext].
     apply J_setr; rewrite Hy; cbn [rkey rremove rretry with_exit]; auto. }
   destruct (script s0) as [l|]; [|apply G; [exact G0 | reflexivity | intros t Ht; now left]].
   assert (G' : PJ s (stop_timer s0 (rretry y))) by (eapply PJ_trans; [exact G0 | apply (PJ_stop_retry s0 r)]).
@@ -222,4 +223,113 @@ Proof.
     exact (j_wi _ HJ i _ Hi).
   - unfold getr in *. cbn [recs set_timers]. exact Y'.
   - intros t Ht. inversion Ht; subst t. right. eexists. cbn [timers set_timers]. rewrite nth_error_app2, Nat.sub_diag by lia. split; reflexivity.
+Qed.
+
+Lemma PJ_clear_retry s r : PJ s (setr s r (with_retry (getr s r) None)).
+Proof. apply J_setr; cbn [rkey rremove rretry with_retry]; [reflexivity | auto | intros; discriminate]. Qed.
+
+(* the callback of a delayed removal *)
+Lemma in_map_J s r : J s -> in_map s r = true -> lookup (kmap s) (rkey (getr s r)) = Some r.
+Proof. intros _. apply in_map_lookup. Qed.
+Lemma J_registered_in_map s k r : J s -> lookup (kmap s) k = Some r -> in_map s r = true.
+Proof. intros HJ Hk. destruct (j_wk _ HJ k r Hk) as [_ E]. unfold in_map. rewrite E, Hk. apply Nat.eqb_refl. Qed.
+
+Lemma PJ_cb_remove s t x : nth_error (timers s) t = Some x -> tst x = TFired -> tkind x = true ->
+  in_map (ran s t x) (trec x) = true -> rremove (getr (ran s t x) (trec x)) = Some t ->
+  PJ s (setr (stop_timer (ran s t x) (Some t)) (trec x) (with_remove (getr (stop_timer (ran s t x) (Some t)) (trec x)) None)).
+Proof.
+  intros Hx Hf Hk Hm Hr HJ. set (r := trec x) in *.
+  assert (Hl : t < length (timers s)) by (eapply nth_error_nth_len; eauto).
+  (* the timer has run: stopping it changes nothing *)
+  assert (E1 : stop_timer (ran s t x) (Some t) = ran s t x).
+  { unfold stop_timer, ran. cbn [timers set_timers]. now rewrite nth_error_set_nth_same by exact Hl. }
+  rewrite E1. change (getr (ran s t x) r) with (getr s r) in *. change (in_map (ran s t x) r) with (in_map s r) in Hm.
+  (* clear the record first, then let the timer run *)
+  change (setr (ran s t x) r (with_remove (getr s r) None)) with (ran (setr s r (with_remove (getr s r) None)) t x).
+  set (s1 := setr s r (with_remove (getr s r) None)).
+  assert (J1 : J s1) by (revert HJ; apply J_setr; cbn [rkey rremove rretry with_remove]; [reflexivity | intros; discriminate | auto]).
+  revert J1. apply (J_tstate s1 t x TRan Hx). right. right. intros k' r' Hk' Hr'. change (kmap s1) with (kmap s) in Hk'.
+  pose proof (in_map_lookup s r Hm) as Hreg. destruct (j_wk _ HJ _ r Hreg) as [Rl _].
+  destruct (Nat.eq_dec r' r) as [->|Hne]; [unfold s1 in Hr'; rewrite getr_setr_same in Hr' by exact Rl; discriminate|].
+  unfold s1 in Hr'. rewrite getr_setr_other in Hr' by exact Hne.
+  destruct (j_it _ HJ k' r' t Hk' Hr') as (x' & Hx' & T1' & _). rewrite Hx in Hx'. inversion Hx'; subst x'. apply Hne. symmetry. exact T1'.
+Qed.
+Lemma PJ_cb_stale s t x : nth_error (timers s) t = Some x -> tst x = TFired -> tkind x = true ->
+  in_map (ran s t x) (trec x) && opt_is (rremove (getr (ran s t x) (trec x))) t = false -> PJ s (ran s t x).
+Proof.
+  intros Hx Hf Hk Hc HJ. refine (J_tstate s t x TRan Hx _ HJ). right. right. intros k r Hk' Hr.
+  destruct (j_it _ HJ k r t Hk' Hr) as (x' & Hx' & T1 & _). rewrite Hx in Hx'. inversion Hx'; subst x'. subst r.
+  change (in_map (ran s t x) (trec x)) with (in_map s (trec x)) in Hc. change (getr (ran s t x) (trec x)) with (getr s (trec x)) in Hc.
+  rewrite (J_registered_in_map s k (trec x) HJ Hk'), Hr in Hc. cbn [opt_is andb] in Hc. now rewrite Nat.eqb_refl in Hc.
+Qed.
+Lemma PJ_cb_retry s t x : nth_error (timers s) t = Some x -> tst x = TFired -> tkind x = false -> PJ s (ran s t x).
+Proof.
+  intros Hx Hf Hk HJ. refine (J_tstate s t x TRan Hx _ HJ). right. right. intros k r Hk' Hr.
+  destruct (j_it _ HJ k r t Hk' Hr) as (x' & Hx' & _ & T & _). congruence.
+Qed.
+
+Lemma PJ_advance s d : PJ s (advance s d).
+Proof.
+  intros [A B C D E]. unfold advance.
+  constructor; cbn [kmap recs insts timers set_timers set_clock];
+    change (getr (set_timers (set_clock s (clock s + d)%N) (map (fire (clock s + d)%N) (timers s)))) with (getr s); auto.
+  - intros k r t Hk Hr. destruct (C k r t Hk Hr) as (x & Hx & T1 & T2 & T3). exists (fire (clock s + d)%N x).
+    rewrite nth_error_map, Hx. split; [reflexivity|]. unfold fire, live in *. destruct (tst x) eqn:Es; try (destruct T3; discriminate).
+    + destruct (N.leb _ _); cbn [trec tkind tst with_tst]; rewrite ?Es; auto.
+    + rewrite Es. auto.
+  - intros r t Hr. destruct (D r t Hr) as (x & Hx & T). exists (fire (clock s + d)%N x). rewrite nth_error_map, Hx. split; [reflexivity|].
+    unfold fire. destruct (tst x); [destruct (N.leb _ _)| | |]; exact T.
+  - intros t x' Hx'. rewrite nth_error_map in Hx'. destruct (nth_error (timers s) t) as [x|] eqn:Hx; [|discriminate]. cbn [option_map] in Hx'.
+    inversion Hx'; subst x'. destruct (E t x Hx) as [E1 E2]. unfold fire. destruct (tst x); [destruct (N.leb _ _)| | |]; cbn [trec tkey with_tst]; auto.
+Qed.
+Lemma PJ_cancel_root s c : PJ s (cancel_root s c).
+Proof.
+  unfold cancel_root. destruct (Nat.eqb c 0); [apply PJ_refl|]. apply J_insts; try reflexivity.
+  intros HJ i x' Hx'. cbn [insts set_croots set_insts] in Hx'. rewrite nth_error_map in Hx'.
+  destruct (nth_error (insts s) i) as [x|] eqn:Hx; [|discriminate]. cbn [option_map] in Hx'. inversion Hx'; subst x'.
+  pose proof (j_wi _ HJ i x Hx). destruct (Nat.eqb (iroot x) c); exact H.
+Qed.
+
+Theorem PJ_next s e : PJ s (settle (step repaired s e)).
+Proof.
+  apply (V_next PJ PJ_refl PJ_trans PJ_cancel_inst (fun s k r c w f H _ => PJ_start s k r c w f H)).
+  - intros s0 k _. eapply PJ_trans; [apply PJ_new_record | jext].
+  - intros; apply PJ_new_record.
+  - apply PJ_unremove. - apply PJ_setr_ctx. - apply PJ_stop_retry. - apply PJ_clear_retry. - apply PJ_kmap_delete. - apply PJ_arm_remove.
+  - intros s0 i x p H. now apply (J_seti s0 i x).
+  - intros s0 i x o H. now apply (J_seti s0 i x).
+  - apply PJ_bookkeep. - apply PJ_cb_remove. - apply PJ_cb_stale. - apply PJ_cb_retry.
+  - intros; jext. - intros; jext. - intros; jext. - apply PJ_advance. - apply PJ_cancel_root. - intros; jext.
+Qed.
+Theorem PJ_step s e : PJ s (step repaired s e).
+Proof.
+  apply (V_step PJ PJ_refl PJ_trans PJ_cancel_inst (fun s k r c w f H _ => PJ_start s k r c w f H)).
+  - intros s0 k _. eapply PJ_trans; [apply PJ_new_record | jext].
+  - intros; apply PJ_new_record.
+  - apply PJ_unremove. - apply PJ_setr_ctx. - apply PJ_stop_retry. - apply PJ_clear_retry. - apply PJ_kmap_delete. - apply PJ_arm_remove.
+  - intros s0 i x p H. now apply (J_seti s0 i x).
+  - intros s0 i x o H. now apply (J_seti s0 i x).
+  - apply PJ_bookkeep. - apply PJ_cb_remove. - apply PJ_cb_stale. - apply PJ_cb_retry.
+  - intros; jext. - intros; jext. - intros; jext. - apply PJ_advance. - apply PJ_cancel_root. - intros; jext.
+Qed.
+Lemma J_init dl sc : J (init dl sc).
+Proof. constructor; cbn [init kmap recs insts timers]; try (intros; discriminate). - intros [|i] x H; discriminate. - intros r t H. unfold getr in H. cbn in H. destruct r; discriminate. - intros [|t] x H; discriminate. Qed.
+Theorem run_J dl sc es : J (run repaired (init dl sc) es).
+Proof. unfold run. apply fold_inv; [intros s e H; now apply (PJ_step s e) | apply J_init]. Qed.
+Lemma Reach_J s : Reach s -> J s. Proof. intros (dl & sc & es & ->). apply run_J. Qed.
+
+(* after the eager schedule no armed timer is due *)
+Definition AD (s : st) : Prop := forall t x, nth_error (timers s) t = Some x -> tst x = TArmed -> (clock s < tdead x)%N.
+Lemma timers_wake s i en : timers (wake repaired s i en) = timers s /\ clock (wake repaired s i en) = clock s.
+Proof. unfold wake. repeat match goal with |- context [match ?x with _ => _ end] => destruct x end; split; reflexivity. Qed.
+Lemma AD_settle s : AD (settle s).
+Proof.
+  assert (G : forall l s0, timers (fold_left (fun s i => wake repaired s i true) l s0) = timers s0 /\ clock (fold_left (fun s i => wake repaired s i true) l s0) = clock s0).
+  { induction l as [|i l IH]; intros s0; cbn [fold_left]; [split; reflexivity|]. destruct (IH (wake repaired s0 i true)) as [A B].
+    destruct (timers_wake s0 i true) as [C D]. split; congruence. }
+  unfold settle. destruct (G (seq 0 (length (insts s))) (advance s 0)) as [A B]. intros t x Hx Ha. rewrite A in Hx. rewrite B.
+  unfold advance in *. cbn [timers clock set_timers set_clock] in *. rewrite nth_error_map in Hx.
+  destruct (nth_error (timers s) t) as [y|]; [|discriminate]. cbn [option_map] in Hx. inversion Hx; subst x. clear Hx.
+  unfold fire in *. destruct (tst y) eqn:Es; cbn [tst with_tst] in Ha; try congruence.
+  destruct (N.leb_spec (tdead y) (clock s + 0)) as [L|L]; [cbn [tst with_tst] in Ha; discriminate | exact L].
 Qed.
